@@ -10,6 +10,14 @@ def scan (n start : Nat) (ready : Nat → Bool) : Nat → Option Nat
     let idx := (start % n + off) % n
     if ready idx then some idx else scan n start ready i
 
+/-- the indices `SelectAll::poll` polls (and thereby hands the task's waker to), in order: from the start index up to and
+    including the first ready one -/
+def visited (n start : Nat) (ready : Nat → Bool) : Nat → List Nat
+  | 0 => []
+  | i+1 =>
+    let idx := (start % n + (n - (i+1))) % n
+    if ready idx then [idx] else idx :: visited n start ready i
+
 /-- `start_index.map_or(0, |idx| idx % num_futures)`; `None` when there are no futures (`Pending`). -/
 def selectAll (n : Nat) (start : Option Nat) (ready : Nat → Bool) : Option Nat :=
   if n = 0 then none else scan n (start.getD 0) ready n
